@@ -35,9 +35,9 @@ use crate::{HexString, PathID, RawInfo};
 )]
 pub struct VersionInformation {
     // Vec for `? filed: [ +ty]``, Option<Vec> for `* filed: [* ty]`
-    #[serde(skip_serializing_if = "Vec::is_empty")]
+    #[serde(default, skip_serializing_if = "Vec::is_empty")]
     server_versions: Vec<QuicVersion>,
-    #[serde(skip_serializing_if = "Vec::is_empty")]
+    #[serde(default, skip_serializing_if = "Vec::is_empty")]
     client_versions: Vec<QuicVersion>,
     chosen_version: Option<QuicVersion>,
 }
@@ -361,7 +361,7 @@ pub struct PacketSent {
 
     /// only if header.packet_type === "version_negotiation"
     #[builder(default)]
-    #[serde(skip_serializing_if = "Vec::is_empty")]
+    #[serde(default, skip_serializing_if = "Vec::is_empty")]
     supported_versions: Vec<QuicVersion>,
     #[builder(default)]
     raw: Option<RawInfo>,
@@ -404,7 +404,7 @@ pub struct PacketReceived {
 
     /// only if header.packet_type === "version_negotiation"
     #[builder(default)]
-    #[serde(skip_serializing_if = "Vec::is_empty")]
+    #[serde(default, skip_serializing_if = "Vec::is_empty")]
     supported_versions: Vec<QuicVersion>,
     #[builder(default)]
     raw: Option<RawInfo>,
@@ -552,7 +552,7 @@ pub enum PacketBufferedTrigger {
 )]
 pub struct PacketsAcked {
     packet_number_space: Option<PacketNumberSpace>,
-    #[serde(skip_serializing_if = "Vec::is_empty")]
+    #[serde(default, skip_serializing_if = "Vec::is_empty")]
     packet_nubers: Vec<u64>,
 }
 /// The datagrams_sent event indicates when one or more UDP-level
@@ -574,16 +574,16 @@ pub struct UdpDatagramsSent {
 
     /// The RawInfo fields do not include the UDP headers,
     /// only the UDP payload
-    #[serde(skip_serializing_if = "Vec::is_empty")]
+    #[serde(default, skip_serializing_if = "Vec::is_empty")]
     raw: Vec<RawInfo>,
 
     /// ECN bits in the IP header
     /// if not set, defaults to the value used on the last
     /// QUICDatagramsSent event
-    #[serde(skip_serializing_if = "Vec::is_empty")]
+    #[serde(default, skip_serializing_if = "Vec::is_empty")]
     ecn: Vec<ECN>,
 
-    #[serde(skip_serializing_if = "Vec::is_empty")]
+    #[serde(default, skip_serializing_if = "Vec::is_empty")]
     datagram_ids: Vec<u32>,
 }
 
@@ -606,16 +606,16 @@ pub struct UdpDatagramsReceived {
 
     /// The RawInfo fields do not include the UDP headers,
     /// only the UDP payload
-    #[serde(skip_serializing_if = "Vec::is_empty")]
+    #[serde(default, skip_serializing_if = "Vec::is_empty")]
     raw: Vec<RawInfo>,
 
     /// ECN bits in the IP header
     /// if not set, defaults to the value used on the last
     /// QUICDatagramsSent event
-    #[serde(skip_serializing_if = "Vec::is_empty")]
+    #[serde(default, skip_serializing_if = "Vec::is_empty")]
     ecn: Vec<ECN>,
 
-    #[serde(skip_serializing_if = "Vec::is_empty")]
+    #[serde(default, skip_serializing_if = "Vec::is_empty")]
     datagram_ids: Vec<u32>,
 }
 
